@@ -1326,7 +1326,7 @@ class Engine:
             return
         if self.find_dtor(rid) is not None and fr.cleanups:
             fr.cleanups[-1].append((obj, t.get("rn"), rid))
-        elif t.get("rn", "").startswith("std::lock_guard") or t.get("rn", "").startswith("std::unique_lock") or t.get("rn", "").startswith("std::shared_lock"):
+        elif t.get("rn", "").startswith(("std::lock_guard", "std::unique_lock", "std::shared_lock", "std::scoped_lock")):
             if fr.cleanups:
                 fr.cleanups[-1].append((obj, t.get("rn"), None))
 
